@@ -1,8 +1,8 @@
 CONSTANTS Labels = {1, 2}
   MaxIds = 3
   MaxBuffer = 2
-  Sem = "CO"
-  StaleCertificate = FALSE
+  Sem = "PR"
+  StaleCertificate = TRUE
   ReissueRule = "code"
 SPECIFICATION Spec
 CHECK_DEADLOCK FALSE
